@@ -2411,6 +2411,8 @@ class Node(_protocols.NodeProtocol, _display.PrettyPrintable):
         """Replace an input with a new value."""
         if index < 0 or index >= len(self.inputs):
             raise ValueError(f"Index out of range: {index}")
+        if value is not None and not isinstance(value, Value):
+            raise TypeError(f"Expected value to be a Value or None, got {type(value)}")
         old_input = self.inputs[index]
         self._inputs = tuple(
             value if i == index else old_input for i, old_input in enumerate(self.inputs)
@@ -3233,6 +3235,8 @@ class Value(WithArithmeticMethods, _protocols.ValueProtocol, _display.PrettyPrin
     def name(self, value: str | None) -> None:
         if self._name == value:
             return
+        if value is not None and not isinstance(value, str):
+            raise TypeError(f"Expected the name to be a string or None, got {type(value)}")
 
         # First check if renaming is valid. Do not change anything if it is invalid
         # to prevent the value from being in an inconsistent state.
